@@ -551,8 +551,10 @@ fn check(tier: &str) -> i32 {
             st_mismatch.push(format!("{}{}", jobs[sample[k]].leg, jobs[sample[k]].batch));
         }
     }
-    if !st_mismatch.is_empty() {
-        simcommon::harness_error(&format!("determinism self-test failed for episodes {:?}", st_mismatch));
+    // never a verdict by itself; violations below are each confirmed by re-execution
+    let nondeterministic = !st_mismatch.is_empty();
+    if nondeterministic {
+        eprintln!("[c07] determinism self-test: episodes {:?} differ between two executions", st_mismatch);
     }
 
     // ---- merge
@@ -747,7 +749,7 @@ fn check(tier: &str) -> i32 {
     ev.cov("fault_kinds", json!({"hash-seed change (per run, per process)": evaluations, "first-use race on cold tables (leg S runs with >=2 threads)": agg.get("S.probe_found_table_being_initialised").copied().unwrap_or(0), "preemption at table access": agg.get("S.steps").copied().unwrap_or(0), "history (preceding conversions in the same process)": agg.get("S.comparisons_cross_run").copied().unwrap_or(0) + agg.get("N.comparisons_cross_run").copied().unwrap_or(0)}));
     ev.cov("runs_per_hour", json!((evaluations as f64 / wall * 3600.0) as u64));
     ev.cov("simulated_time", json!("none: the library reads no clock; progress is counted in scheduler steps (counters.S.steps)"));
-    ev.cov("determinism_selftest", json!({"episodes_executed_twice": sample.len(), "mismatches": 0, "worker_counts": [threads, 3.min(threads)]}));
+    ev.cov("determinism_selftest", json!({"episodes_executed_twice": sample.len(), "mismatches": st_mismatch.len(), "worker_counts": [threads, 3.min(threads)]}));
     ev.cov("real_vs_stub", json!({"leg S": {"real": "all of svgbob and its dependencies", "stub": "once_cell::sync::Lazy (shuttle's Lazy/Once), std threads (shuttle tasks), getrandom"}, "leg N/F": {"real": "everything incl. once_cell and std HashMap", "stub": "getrandom (hash keys)"}}));
     ev.cov("violation_classes_seen", json!(seen_classes));
     ev.cov("violations_sample", json!(vio_samples));
@@ -779,6 +781,8 @@ fn check(tier: &str) -> i32 {
     );
     if !violation_lines.is_empty() {
         1
+    } else if nondeterministic {
+        simcommon::harness_error(&format!("determinism self-test failed for episodes {:?} and no violation was confirmed", st_mismatch))
     } else if unconfirmed > 0 {
         simcommon::harness_error("a reported mismatch did not reproduce from its explicit description")
     } else {
